@@ -326,7 +326,7 @@ func flip(raw []byte, byteIdx, bit int) []byte {
 func TestC07(t *testing.T) {
 	env := kit.GetEnv()
 	rep := kit.NewReport("C07", env)
-	rep.Rule = "per ping kind (hello req/resp, pong req/resp, error codes 0-4 + unknown, disconnect going-down/list, announce with 0 and 1 hop), produced by the real sender code of peer X in a fresh 6-router world: (a) every single-bit flip of every authenticated header byte (all except TTL/flow), the length fields and the signature/MAC, and one bit per body byte (thorough: all bits), each alone and on a copy that follows the genuine ping; (b) source rewritten to each other known identity, destination rewritten; (c) same ping re-built and sealed by another router claiming X's address; (c2) a relayed announcement whose delivering peer forges an inner hop record of a router the receiver already knows, with its own key embedded; (d) first-contact variants with header key right / wrong / for another address, the forged ones repeated three times (again as a hello and as the original kind); (e) replay of the exact frame after {nothing, a newer valid ping from X, a ping from Y, +31 s, 61 min of idle time + the session cleaner, a newer valid ping of each of the other kinds from X; for the encrypted kinds: a newer opposite verdict whose sequence number jumped by {1,2,63,64,65,66,128}}; (f) the valid ping itself with its type-specific effect bound (a disconnect must remove every route containing its sender), also after eight days without storage access and a run of the receiver's storage pruning (sessions live on, stored entries are gone); snapshot = table + sessions(keys, MTU) + stored info/offline flags + connection verdicts; non-trivial = mutation hits an authenticated byte or the case must be rejected; states = distinct snapshots observed"
+	rep.Rule = "(round 8) for every ping kind, a tampered copy (one bit of the body / of the signature) handled while the receiver's router storage fails with an I/O error - every storage call made during the handling, one at a time, as a single failure and as the start of an outage of that operation, with the sender's session alive and with the sender known from storage only (61 min idle + session cleaner): no protected state may change; per ping kind (hello req/resp, pong req/resp, error codes 0-4 + unknown, disconnect going-down/list, announce with 0 and 1 hop), produced by the real sender code of peer X in a fresh 6-router world: (a) every single-bit flip of every authenticated header byte (all except TTL/flow), the length fields and the signature/MAC, and one bit per body byte (thorough: all bits), each alone and on a copy that follows the genuine ping; (b) source rewritten to each other known identity, destination rewritten; (c) same ping re-built and sealed by another router claiming X's address; (c2) a relayed announcement whose delivering peer forges an inner hop record of a router the receiver already knows, with its own key embedded; (d) first-contact variants with header key right / wrong / for another address, the forged ones repeated three times (again as a hello and as the original kind); (e) replay of the exact frame after {nothing, a newer valid ping from X, a ping from Y, +31 s, 61 min of idle time + the session cleaner, a newer valid ping of each of the other kinds from X; for the encrypted kinds: a newer opposite verdict whose sequence number jumped by {1,2,63,64,65,66,128}}; (f) the valid ping itself with its type-specific effect bound (a disconnect must remove every route containing its sender), also after eight days without storage access and a run of the receiver's storage pruning (sessions live on, stored entries are gone); snapshot = table + sessions(keys, MTU) + stored info/offline flags + connection verdicts; non-trivial = mutation hits an authenticated byte or the case must be rejected; states = distinct snapshots observed"
 	rep.Assumptions = []string{
 		"state is observed through exported accessors plus the VerifEntries hook; pending-ping bookkeeping (active hello/pong ids, error rate limiter) is not part of the statement's state list",
 		"disconnect pings are addressed to the router itself: as emitted by the real sender (unicast type to the multicast address) they are never dispatched to the disconnect handler at all",
@@ -346,6 +346,10 @@ func TestC07(t *testing.T) {
 		before  map[string]string
 		after   map[string]string
 	}
+	// storageFaults != nil: the receiver's storage counts its calls while the ping is handled
+	// and fails the named ones with an I/O error (not "not found").
+	var storageFaults, storageCalls, storageFired []string
+	var beforeInject func(tw *tworld)
 	run := func(k pingKind, transform func(tw *tworld, raw []byte) ([]byte, *kit.Node), pre func(tw *tworld, raw []byte)) (o outcome) {
 		synctest.Test(t, func(t *testing.T) {
 			tw := build()
@@ -369,7 +373,17 @@ func TestC07(t *testing.T) {
 			}
 			o.before = norm(kit.SnapshotMap(tw.r, tw.ips))
 			np := len(tw.w.Panics)
+			if storageFaults != nil {
+				if beforeInject != nil {
+					beforeInject(tw)
+				}
+				tw.r.FS.Arm(storageFaults...)
+			}
 			o.errs = tw.w.Inject(via, tw.r, raw)
+			if storageFaults != nil {
+				storageCalls, storageFired = tw.r.FS.Calls, tw.r.FS.Fired
+				tw.r.FS.Disarm()
+			}
 			o.panics = len(tw.w.Panics) - np
 			o.after = norm(kit.SnapshotMap(tw.r, tw.ips))
 			o.changed = kit.DiffKeys(o.before, o.after)
@@ -450,6 +464,61 @@ func TestC07(t *testing.T) {
 			pb := pb
 			o := run(k, func(tw *tworld, raw []byte) ([]byte, *kit.Node) { return flip(raw, pb[0], pb[1]), nil }, nil)
 			mustUnchanged(k, fmt.Sprintf("bitflip/%s", region(pb[0], msgStart, aStart)), o, map[string]any{"kind": k.name, "byte": pb[0], "bit": pb[1]})
+		}
+		// (s) a fault at a point in a dependency: the receiver's router storage fails ONE of
+		// the calls it makes while a tampered ping is handled (every call, one at a time) - with
+		// the sender's session alive, and after an hour of silence and a run of the session
+		// cleaner (the sender is then known from storage only). Nothing may change either way.
+		for _, sess := range []string{"live-session", "known-from-storage-only(61min-idle+cleaner)"} {
+			for _, tp := range [][2]int{{msgStart + 3, 2}, {aStart + 1, 0}} {
+				if !mine() {
+					continue
+				}
+				sess, tp := sess, tp
+				pre := func(tw *tworld, raw []byte) {
+					// the receiver holds public info about its peers, and knows them as offline
+					// (a forged ping must neither drop the one nor reset the other).
+					for _, p := range []*kit.Node{tw.x, tw.y, tw.z} {
+						must(tw.r.State().AddPublicRouterInfo(p.Identity().IP, &m.RouterInfo{Version: "v-" + p.Name, Listeners: []string{"tcp:4000"}, IANA: []string{"198.51.100.7"}}))
+						must(tw.r.State().MarkRouterOffline(p.Identity().IP))
+					}
+					if sess != "live-session" {
+						time.Sleep(61 * time.Minute)
+						tw.r.State().VerifCleanSessions()
+					}
+				}
+				tf := func(tw *tworld, raw []byte) ([]byte, *kit.Node) { return flip(raw, tp[0], tp[1]), nil }
+				beforeInject = nil
+				if sess != "live-session" {
+					// taking the "before" snapshot looks the sessions up, which re-creates them (bare,
+					// without keys): another idle hour and another cleaner run drop them again, so
+					// that the ping meets a router that knows its sender from storage only. (The
+					// snapshot also asks for the encryption state, which creates it: such a session
+					// lives an hour.)
+					beforeInject = func(tw *tworld) {
+						time.Sleep(61 * time.Minute)
+						tw.r.State().VerifCleanSessions()
+					}
+				}
+				storageFaults = []string{}
+				run(k, tf, pre)
+				calls := append([]string(nil), storageCalls...)
+				rep.OutcomeN(fmt.Sprintf("storage-fault/%s/%s: storage calls while handling", k.name, sess), int64(len(calls)))
+				// every call failing once, and every call as the start of an outage of that operation.
+				var plans []string
+				for _, c := range calls {
+					plans = append(plans, c, c+"+")
+				}
+				for _, c := range plans {
+					storageFaults = []string{c}
+					o := run(k, tf, pre)
+					if len(storageFired) == 0 {
+						rep.Outcome("storage-fault/not-reached")
+					}
+					mustUnchanged(k, fmt.Sprintf("bitflip/%s+storage-fault:%s/%s", region(tp[0], msgStart, aStart), strings.SplitN(c, "#", 2)[0], sess), o, map[string]any{"kind": k.name, "byte": tp[0], "bit": tp[1], "storage_call_failing": c, "session": sess})
+				}
+				storageFaults, beforeInject = nil, nil
+			}
 		}
 		// (a2) the same bit flips on a copy that follows the genuine ping (same sequence
 		// number / time as a frame the receiver has just accepted).
